@@ -7,6 +7,7 @@ import TinsModel.Wire.Icmp.Theorems
 import TinsModel.Wire.Transport.Theorems
 import TinsModel.Wire.App.Theorems
 import TinsModel.Wire.Wifi.Theorems
+import TinsModel.Wire.Coverage
 /-
   Property C01 — parsing untrusted bytes is memory-safe and fails only as malformed-packet.
   Generic part here; the per-class `*_parse_safe` theorems live in TinsModel/Wire/<Family>/Theorems.lean
@@ -30,6 +31,56 @@ theorem cursor_safe (b : Bytes) (ops : List CursorOp) :
 theorem chain_parse_safe (h : Wire.ClassesSafe) (cls : String) (b : Bytes) :
     (Wire.parseChain (b.length + 2) cls b).Safe :=
   Wire.parseChain_entry_safe h cls b
+
+/-! ### entry-point coverage (the table `Gen.EntryPoints.all` is regenerated from the headers on every run) -/
+
+/-- the AST scan behind `Gen.EntryPoints.all` classified every declaration that matches the pattern -/
+theorem entry_scan_complete : Gen.EntryPoints.unparsed = [] := Wire.Coverage.scan_complete
+
+/-- **entry_points_covered** — every construct-from-buffer form of libtins' public interface (public constructor, static
+    member, member function or free function of namespace Tins taking `const uint8_t*` + size) has a disposition in
+    `Wire/Coverage.lean`: a Lean model with a safety theorem, a harness that drives it under the sanitizers, or a reason
+    why it is no parser of untrusted bytes.  A form added to libtins has none: this theorem then fails and the check
+    reports the new entry point. -/
+theorem entry_points_covered : ∀ e ∈ Gen.EntryPoints.all, (Wire.Coverage.disposition e).isSome :=
+  Wire.Coverage.entryPoints_covered
+
+private theorem ps_map {α β} {x : Out α} (f : α → β) (h : Wire.ParseSafe x) : Wire.ParseSafe (x >>= fun a => pure (f a)) := by
+  rcases h with ⟨a, h⟩ | h
+  · exact .inl ⟨f a, by rw [h]; rfl⟩
+  · exact .inr (by rw [h]; rfl)
+
+private theorem contains_mem {l : List String} {c : String} (h : l.contains c = true) : c ∈ l := by simpa using h
+
+/-- **wire_modelled_safe** — what a row `modelled "Wire.parseOne cls"` of the coverage table claims: for every class of
+    the six families with a Lean model (`Coverage.safeModelled`), the parsing constructor never faults and throws only
+    `malformed_packet`, for ALL byte strings.  (Classes the Icmp family claims are excluded until that family has its
+    `parse_safe` theorem; the table marks them `harnessOnly`.) -/
+theorem wire_modelled_safe (cls : String) (b : Bytes) (h : Wire.Coverage.safeModelled cls = true)
+    (hi : Wire.Icmp.classes.contains cls = false) : Wire.ParseSafe (Wire.parseOne cls b) := by
+  unfold Wire.parseOne
+  split
+  · exact .inl ⟨_, rfl⟩
+  split
+  · rename_i hc; exact ps_map _ (Wire.L2.l2_parse_safe cls b (contains_mem hc))
+  split
+  · rename_i hc; exact ps_map _ (Wire.Ip.ip_parse_safe cls b (contains_mem hc))
+  split
+  · rename_i hc; exact ps_map _ (Wire.Ip6.ip6_parse_safe cls b (contains_mem hc))
+  split
+  · rename_i hc; rw [hi] at hc; cases hc
+  split
+  · rename_i hc; exact ps_map _ (Wire.Transport.transport_parse_safe cls b (contains_mem hc))
+  split
+  · rename_i hc; exact ps_map _ (Wire.App.app_parse_safe cls b (contains_mem hc))
+  split
+  · rename_i hc; exact ps_map _ (Wire.Wifi.wifi_parse_safe cls b (contains_mem hc))
+  · exfalso
+    simp only [Wire.Coverage.safeModelled, Bool.or_eq_true] at h
+    simp_all
+
+/-- the rows concerned: every entry point the table marks `modelled` through the wire registry names such a class -/
+example : Wire.Coverage.safeModelled "IP" = true ∧ Wire.Icmp.classes.contains "IP" = false := by decide
 
 /-- non-vacuity: a concrete operation sequence that succeeds and one that is rejected -/
 example : ∃ c', (Cursor.ofBytes [1, 2, 3, 4, 5]).run [.read 2, .peek 0 2, .shrink 2, .skip 2] = .ok c' := ⟨_, rfl⟩
